@@ -346,10 +346,10 @@ class Sample:
         ) = pickle.load(
             fd
         )  # type: ignore
-        self.profile.display_format = False
-        self.profile.debug_probe = ""
-        self.profile.debug_novel = False
-        self.profile.min_avg_coverage = 2.0
+        # Dumps made by older versions lack the newer parameters: add their defaults,
+        # but keep the values the dumped run used (e.g. from the profile's options).
+        for attr, default in Profile("").__dict__.items():
+            self.profile.__dict__.setdefault(attr, default)
         self.phases = {f"r{i}": v for i, v in enumerate(phases)}
         norm = {p: [q for q, n in c.items() for _ in range(n)] for p, c in norm.items()}
         muts = {p: [q for q, n in c.items() for _ in range(n)] for p, c in muts.items()}
